@@ -113,7 +113,7 @@ impl Scenario for Pair {
 
     fn gen(&self, rng: &mut Rng, tier: Tier) -> PairPlan {
         let mut g = GenCfg::swarm(rng);
-        g.authors = rng.range(1, 3) as u8;
+        g.authors = crate::world::gen_author_count(rng, 3);
         let max = tier.pick(12, 24);
         // shapes: both random / one empty / identical / one superset
         let shape = rng.below(10);
